@@ -12,9 +12,19 @@ sys.path.insert(0, str(Path(__file__).resolve().parent.parent))
 
 from harness import core  # noqa: E402
 
-COMPONENTS = {
-    "C17": "harness.comp_queue",
-}
+def discover() -> dict[str, str]:
+    """property id -> component module (every harness/comp_*.py declares `PID = "Cxx"`)."""
+    import re
+
+    found = {}
+    for f in sorted(Path(__file__).resolve().parent.glob("comp_*.py")):
+        m = re.search(r'^PID\s*=\s*"(C\d+)"', f.read_text(), re.M)
+        if m:
+            found[m.group(1)] = f"harness.{f.stem}"
+    return found
+
+
+COMPONENTS = discover()
 
 
 def main() -> int:
